@@ -111,6 +111,16 @@ func testBad(x *T, tt *TT) {
 
 func testBad2(tt *TT) {
 	tt.F = 4 // want IMM01 dep=d/x_test.go
+	Helper()
+	InTest()
+}
+`},
+			{Name: "z_more_test.go", Src: `package d
+
+// a third in-package test file in a row: test files never receive TONL diagnostics, whichever position they have
+func testBad3() int {
+	InTest()
+	return Helper()
 }
 `},
 			{Name: "ext_test.go", Src: `package d_test
@@ -123,6 +133,15 @@ func extBad(x *d.T, tt *d.TT) {
 	x.F = 5 // want IMM01 dep=d/x.go
 	tt.F = 5 // want IMM01 dep=d/x_test.go
 	d.Helper()
+}
+`},
+			{Name: "ext2_test.go", Src: `package d_test
+
+import "ex.com/m/d"
+
+func extBad2() int {
+	d.InTest()
+	return d.Helper()
 }
 `},
 		}},
